@@ -1215,10 +1215,10 @@ theorem c07_shape_Overlay_TransmitMsg :
      "transmitMux.Lock", "defer:transmitMux.Unlock", "instancesLock.Lock", "To.ID", "To.ID",
      "o.cleanTreeStorage", "instancesLock.Unlock", "o.TreeNodeFromTree",
      "o.newTreeNodeInstanceFromToken", "treeStorage.Set", "o.hasPendingMsg",
-     "o.checkPendingMessages", "To.ID", "o.getConfig",
-     "serviceManager.newProtocol", "instancesLock.Lock", "o.nodeDelete", "instancesLock.Unlock",
-     "go{", "defer{", "tni.Token", "ServiceFactory.Name", "}", "pi.Dispatch", "tni.Token",
-     "ServiceFactory.Name", "}", "o.RegisterProtocolInstance", "pi.ProcessProtocolMsg"] := rfl
+     "o.checkPendingMessages", "To.ID", "o.getConfig", "serviceManager.newProtocol",
+     "instancesLock.Lock", "o.nodeDelete", "instancesLock.Unlock", "go{", "defer{", "tni.Token",
+     "ServiceFactory.Name", "}", "pi.Dispatch", "tni.Token", "ServiceFactory.Name", "}",
+     "o.RegisterProtocolInstance", "pi.ProcessProtocolMsg"] := rfl
 
 theorem c07_shape_Overlay_requestTree :
     Shapes.overlay_Overlay_requestTree =
@@ -1327,7 +1327,6 @@ theorem c07_shape_TreeNodeInstance_createValueAndVerify :
      "if:(((msg.ServerIdentity!=nil)&&(tn!=nil))&&!tn.ServerIdentity.Equal(msg.ServerIdentity))",
      "return:m,xerrors.Errorf(\"\",tn.ServerIdentity,msg.ServerIdentity)", "return:m,nil"] := rfl
 
-
 theorem c07_shape_Overlay_newTreeNodeInstanceFromToken :
     Shapes.overlay_Overlay_newTreeNodeInstanceFromToken =
    ["newTreeNodeInstance", "instancesLock.Lock", "defer:instancesLock.Unlock", "if:o.closed",
@@ -1351,5 +1350,57 @@ theorem c07_shape_TreeNodeInstance_ProcessProtocolMsg :
     Shapes.treenode_TreeNodeInstance_ProcessProtocolMsg =
    ["msgDispatchQueueMutex.Lock", "defer:msgDispatchQueueMutex.Unlock", "if:n.closing",
      "return:", "n.notifyDispatch"] := rfl
+
+theorem c07_shape_Overlay_hasPendingMsg_b2 :
+    Shapes.overlay_Overlay_hasPendingMsg_b2 =
+   ["pendingMsgLock.Lock", "defer:pendingMsgLock.Unlock", "range:_,msg:=o.pendingMsg{",
+     "if:((msg.To!=nil)&&id.Equal(msg.To.TreeID))", "return:true", "}", "return:false"] := rfl
+
+theorem c07_shape_Overlay_checkPendingMessages_b2 :
+    Shapes.overlay_Overlay_checkPendingMessages_b2 =
+   ["go{", "verifPoint:cpm.start", "pendingMsgLock.Lock", "range:_,msg:=o.pendingMsg{",
+     "if:t.ID.Equal(msg.To.TreeID)", "assign:remaining=append(remaining,msg)", "else",
+     "assign:newPending=append(newPending,msg)", "}", "assign:o.pendingMsg=newPending",
+     "pendingMsgLock.Unlock", "range:_,msg:=remaining{", "o.TransmitMsg",
+     "assign:err:=o.TransmitMsg(msg.ProtocolMsg,msg.MessageProxy)", "if:(err!=nil)", "continue",
+     "}", "verifPoint:cpm.done", "}"] := rfl
+
+theorem c07_shape_Overlay_savePendingMsg_b2 :
+    Shapes.overlay_Overlay_savePendingMsg_b2 =
+   ["pendingMsgLock.Lock",
+     "assign:o.pendingMsg=append(o.pendingMsg,pendingMsg{ProtocolMsg:onetMsg,MessageProxy:io})",
+     "pendingMsgLock.Unlock"] := rfl
+
+theorem c07_shape_Overlay_RegisterTree_b2 :
+    Shapes.overlay_Overlay_RegisterTree_b2 =
+   ["treeStorage.Set", "o.checkPendingMessages"] := rfl
+
+theorem c07_shape_Overlay_TreeNodeFromTree_b2 :
+    Shapes.overlay_Overlay_TreeNodeFromTree_b2 =
+   ["tree.Search", "assign:tn:=tree.Search(id)", "if:(tn==nil)", "return:nil,xerrors.New(\"\")",
+     "return:tn,nil"] := rfl
+
+theorem c07_shape_Overlay_handleConfigMessage_b2 :
+    Shapes.overlay_Overlay_handleConfigMessage_b2 =
+   ["assign:config,ok:=env.Msg.(ConfigMsg)", "if:!ok", "return:", "pendingConfigsMut.Lock",
+     "defer:pendingConfigsMut.Unlock", "assign:o.pendingConfigs[config.Dest]=&config.Config"] := rfl
+
+theorem c07_shape_Overlay_getConfig_b2 :
+    Shapes.overlay_Overlay_getConfig_b2 =
+   ["pendingConfigsMut.Lock", "defer:pendingConfigsMut.Unlock", "assign:c:=o.pendingConfigs[id]",
+     "return:c"] := rfl
+
+theorem c07_shape_treeStorage_getAndRefresh_b2 :
+    Shapes.treestorage_treeStorage_getAndRefresh_b2 =
+   ["ts.Lock", "defer:ts.Unlock", "ts.cancelDeletion", "return:ts.trees[id]"] := rfl
+
+theorem c07_shape_treeStorage_Remove_b2 :
+    Shapes.treestorage_treeStorage_Remove_b2 =
+   ["ts.Lock", "defer:ts.Unlock", "if:ts.closed", "return:", "assign:_,ok:=ts.cancellations[id]",
+     "if:ok", "return:", "wg.Add", "assign:c:=make(conv)", "assign:ts.cancellations[id]=c",
+     "go{", "defer:wg.Done", "time.NewTimer", "assign:timer:=time.NewTimer(ts.timeout)",
+     "recv:C", "verifPoint:ts.fired", "ts.Lock", "if:(ts.cancellations[id]==c)", "ts.Unlock",
+     "recv:c", "timer.Stop", "return:", "}"] := rfl
+
 
 end C07
